@@ -48,7 +48,14 @@ fn listing(dir: &Path) -> Vec<String> {
     v
 }
 
+thread_local! {
+    /// the counting is followed by this many merges that keep the temporary files, each of which must give the
+    /// same table (as a multiset of lines), before the final merge that deletes them
+    pub static EXTRA_MERGES: std::cell::Cell<usize> = std::cell::Cell::new(0);
+}
+
 pub fn exec(input: &str, outdir: &Path, cfg: &CtrCfg, s: &Sched) -> CtrOut {
+    let extra = EXTRA_MERGES.with(|e| e.replace(0));
     let guard = sched::install(s, cfg.threads, "ctr.taken", "ctr.exit");
     let od = io::path_str(outdir);
     let mut mid: Vec<String> = Vec::new();
@@ -59,7 +66,27 @@ pub fn exec(input: &str, outdir: &Path, cfg: &CtrCfg, s: &Sched) -> CtrOut {
         ctr.set_acgt_output(cfg.acgt);
         ctr.count();
         mid = listing(outdir);
+        let mut first: Option<Vec<String>> = None;
+        for j in 0..extra {
+            ctr.merge(false);
+            let text = std::fs::read_to_string(outdir.join("kmers.counts")).unwrap_or_default();
+            let mut lines: Vec<String> = text.lines().map(|l| l.to_string()).collect();
+            lines.sort();
+            match &first {
+                None => first = Some(lines),
+                Some(f) if *f != lines => panic!("merge number {} of the same temporary files gives {} lines, the first one gave {} (as multisets they differ)", j + 1, lines.len(), f.len()),
+                _ => {}
+            }
+        }
         ctr.merge(true);
+        if let Some(f) = first {
+            let text = std::fs::read_to_string(outdir.join("kmers.counts")).unwrap_or_default();
+            let mut lines: Vec<String> = text.lines().map(|l| l.to_string()).collect();
+            lines.sort();
+            if f != lines {
+                panic!("the final merge gives {} lines, an earlier merge of the same temporary files gave {}", lines.len(), f.len());
+            }
+        }
     });
     let report = guard.report();
     drop(guard);
@@ -145,6 +172,9 @@ pub struct Case {
     /// directory before counting (P < 24, C < 6): a correct run never merges them
     #[serde(default)]
     pub decoys: bool,
+    /// merges that keep the temporary files before the final one (every one must give the same table)
+    #[serde(default)]
+    pub extra_merges: u8,
 }
 
 pub fn place_decoys(outdir: &Path, k: usize) {
@@ -194,6 +224,8 @@ pub fn check_case(c: &Case) -> Verdict {
     if c.decoys {
         place_decoys(&outdir, c.k);
     }
+    EXTRA_MERGES.with(|e| e.set(if c.decoys { 0 } else { c.extra_merges as usize }));
+    v.class_if(c.extra_merges > 0 && !c.decoys, "merged-several-times");
     let mut o = exec(&io::path_str(&input), &outdir, &cfg, &c.sched);
     if c.decoys {
         // chunk/partition numbers are read from the temp files present after counting: not meaningful with decoys;
@@ -228,9 +260,11 @@ impl Leg for Runs {
         (gen::k_strategy(), gen::threads_strategy(), prop::sample::select(vec![1usize, 2, 3, 5, 12, 30]), any::<bool>(), prop::bool::weighted(0.2))
             .prop_flat_map(move |(k, threads, chunks, acgt, decoys)| {
                 let p = rec_params(tier, k);
-                (gen::records_mixed_in_container(p), gen::sched_strategy(true, 120)).prop_map(move |((recs, cont), sched)| {
+                (gen::records_mixed_in_container(p), gen::sched_strategy(true, 120), prop_oneof![3 => Just(0u8), 1 => 1u8..=4, 1 => 10u8..=40]).prop_map(move |((recs, cont), sched, extra_merges)| {
                     let threads = if matches!(sched, Sched::Controlled(_)) { ((threads - 1) % 6) + 1 } else { threads };
-                    Case { recs, cont, k, threads, chunks, acgt, sched, decoys }
+                    // the scheduler's epochs follow the counting workers only: the extra merges run free
+                    let extra_merges = if matches!(sched, Sched::Controlled(_)) { 0 } else { extra_merges };
+                    Case { recs, cont, k, threads, chunks, acgt, sched, decoys, extra_merges }
                 })
             })
             .boxed()
@@ -254,7 +288,7 @@ impl Leg for Large {
                 let p = RecParams { max_records: nrec, scale: k, max_len: 700, degenerate_w: 0, bounds: [k, 0, 0], nuc_only: false };
                 (proptest::collection::vec(gen::seq(k, 700, true), nrec / 2..=nrec), Just(p)).prop_map(move |(seqs, _p)| {
                     let recs: Vec<Rec> = seqs.into_iter().enumerate().map(|(i, s)| Rec { id: format!("r{}", i), desc: None, seq: Bytes(s) }).collect();
-                    Case { recs, cont: Container::plain_fasta(), k, threads, chunks, acgt, sched: Sched::Free, decoys: false }
+                    Case { recs, cont: Container::plain_fasta(), k, threads, chunks, acgt, sched: Sched::Free, decoys: false, extra_merges: 0 }
                 })
             })
             .boxed()
